@@ -93,7 +93,7 @@ impl Check for C14 {
     }
 
     fn cases(&self, tier: Tier) -> u64 {
-        tier.pick(600_000, 30_000_000)
+        tier.pick(2_400_000, 30_000_000)
     }
 
     fn hang_is_violation(&self) -> bool {
